@@ -791,6 +791,11 @@ func (m *MsgBridgeCall) validateBasic() (err error) {
 	if m.Value.IsNil() || m.Value.Sign() != 0 {
 		return sdkerrors.ErrInvalidRequest.Wrap("value must be zero")
 	}
+	for _, coin := range m.Coins {
+		if coin.Amount.IsNil() {
+			return sdkerrors.ErrInvalidCoins.Wrap("coin amount is missing")
+		}
+	}
 	if err = m.Coins.Validate(); err != nil {
 		return sdkerrors.ErrInvalidCoins.Wrap(err.Error())
 	}
